@@ -22,6 +22,9 @@ import (
 type TierSpec struct {
 	Params        map[string]int `json:"params"`
 	MaxSteps      int64          `json:"max_steps"`
+	// MaxWallS: wall-clock budget per harness in seconds (default 1500 quick / 7200 thorough); when
+	// it runs out with paths pending the run is INCONCLUSIVE (a changed tree must not hang a check)
+	MaxWallS int `json:"max_wall_s"`
 	MaxPaths      int            `json:"max_paths"`
 	QueryTimeoutS int            `json:"query_timeout_s"`
 	Skip          bool           `json:"skip"`
@@ -440,7 +443,7 @@ func (u *Unit) tierFor(hs *HarnessSpec, tier string) TierSpec {
 	if t.Params == nil {
 		t.Params = map[string]int{}
 	}
-	merged := TierSpec{Params: map[string]int{}, MaxSteps: t.MaxSteps, MaxPaths: t.MaxPaths, QueryTimeoutS: t.QueryTimeoutS}
+	merged := TierSpec{Params: map[string]int{}, MaxSteps: t.MaxSteps, MaxPaths: t.MaxPaths, QueryTimeoutS: t.QueryTimeoutS, MaxWallS: t.MaxWallS}
 	for k, v := range t.Params {
 		merged.Params[k] = v
 	}
@@ -499,6 +502,14 @@ func runHarness(p *Program, spec *Unit, hs *HarnessSpec, tier string, o *runOpts
 		nw = 1
 	}
 	pool := newPool(ts.MaxPaths, nw)
+	wallS := ts.MaxWallS
+	if wallS == 0 {
+		wallS = 1500
+		if tier == "thorough" {
+			wallS = 7200
+		}
+	}
+	pool.deadline = time.Now().Add(time.Duration(wallS) * time.Second)
 	pool.push(0, workItem{prefix: nil, model: Model{}})
 	start := time.Now()
 	total := newStats()
@@ -539,6 +550,9 @@ func runHarness(p *Program, spec *Unit, hs *HarnessSpec, tier string, o *runOpts
 	wg.Wait()
 	if firstErr != nil {
 		return nil, firstErr
+	}
+	if pool.timedOut {
+		total.Inconclusive = append(total.Inconclusive, fmt.Sprintf("wall-clock budget of %d s exhausted with paths pending", wallS))
 	}
 	if pool.overflow {
 		total.Inconclusive = append(total.Inconclusive, fmt.Sprintf("path budget %d exhausted with prefixes pending", ts.MaxPaths))
